@@ -285,6 +285,17 @@ fn run_case_inner(case: &Case, rep: &mut Report) -> Option<(String, String)> {
                         rep.bump("c18/multibyte_char_rejected");
                     }
                 }
+                // every truncation of the address (down to the bare prefix, the prefix with its separator, and a few
+                // characters behind it): the helpers answer, they do not panic; what they accept they return unchanged
+                for cut in 0..chars.len() {
+                    let s = String::from_utf8(chars[..cut].to_vec()).unwrap();
+                    let _ = api.addr_canonicalize(&s);
+                    match api.addr_validate(&s) {
+                        Ok(a) if a.as_str() == s => rep.bump("c18/observation/truncation_accepted_unchanged"),
+                        Ok(a) => fail!("validate-alters-accepted-address", "{:?} prefix {:?}: validate({}) = {} (truncation of {})", v, prefix, s, a, reference),
+                        Err(_) => rep.bump("c18/truncation_rejected_without_panic"),
+                    }
+                }
                 // insertions / deletions: tried and counted, never judged (documented Bech32 weakness)
                 for pos in (sep + 1)..chars.len() {
                     let mut c = chars.clone();
